@@ -31,7 +31,7 @@ Vals(k) ==
       [] k = "ratio" -> {Num("2.5")}
       [] k \in {"tags", "labels"} -> {[t |-> "q", e |-> <<Marker(k), Str("second")>>]}
       [] k = "items" -> {[t |-> "q", e |-> <<Marker(k), Num("7"), Null>>], EmptySeq}
-      [] k = "env" -> {[t |-> "m", kv |-> <<<<"A", Marker(k)>>>>]}
+      [] k = "env" -> {[t |-> "m", kv |-> <<<<"A", Marker(k)>>>>], [t |-> "m", kv |-> <<<<"A", Marker(k)>>, <<"EMPTY", Null>>>>]}   \* a null inside a map of strings
       [] k = "extra" -> {[t |-> "m", kv |-> <<<<"b", Num("1")>>, <<"a", [t |-> "q", e |-> <<Marker(k)>>]>>>>]}
       [] k \in {"anyv", "av"} -> {Marker(k), [t |-> "m", kv |-> <<<<"z", Marker(k)>>, <<"a", EmptySeq>>>>]}
       [] k \in {"sub", "psub", "ps"} -> SubDocs
